@@ -284,9 +284,8 @@ func HTMLAssets(item *models.Item) (assets []*models.URL, err error) {
 		document.Find("style").Each(func(index int, i *goquery.Selection) {
 			matches := urlRegex.FindAllStringSubmatch(i.Text(), -1)
 			for match := range matches {
-				matchReplacement := matches[match][1]
-				matchReplacement = strings.Replace(matchReplacement, "'", "", -1)
-				matchReplacement = strings.Replace(matchReplacement, "\"", "", -1)
+				// Strip the whitespace and the quotes that may surround the URL inside url(...)
+				matchReplacement := strings.Trim(strings.TrimSpace(matches[match][1]), `'"`)
 
 				// If the URL already has http (or https), we don't need add anything to it.
 				if !strings.Contains(matchReplacement, "http") {
